@@ -23,6 +23,7 @@ type Env struct {
 	li     *loopInfo
 	pkg    *types.Package
 	defs   []Term // definedness side conditions collected (index in bounds etc.) - unused
+	fuel   Term   // inside a ufun definition body: the fuel of recursive calls
 }
 
 type evalError string
@@ -611,10 +612,12 @@ func (env *Env) evalQuant(t *EQuant) Value {
 	c := env.x.c
 	ne := env
 	var decl []string
+	var bvNames []string
 	for _, name := range t.Vars {
 		c.ctr++
 		bn := fmt.Sprintf("%s?%d", name, c.ctr)
 		bn = strings.ReplaceAll(bn, "?", "_q")
+		bvNames = append(bvNames, bn)
 		bv := Term{S: bn, Sort: c.INT(), N: 1, UB: -1}
 		decl = append(decl, fmt.Sprintf("(%s %s)", bn, c.INT()))
 		ne = ne.bind(name, c.Scalar(tInt, bv))
@@ -636,6 +639,19 @@ func (env *Env) evalQuant(t *EQuant) Value {
 		ax := Term{S: fmt.Sprintf("(forall (%s) %s)", strings.Join(decl, " "), f.S), Sort: SBool, N: f.N + 2, UB: -1}
 		c.AddFact(tTrue, ax, "type axiom under binder")
 	}
-	r := Term{S: fmt.Sprintf("(%s (%s) %s)", q, strings.Join(decl, " "), body.S), Sort: SBool, N: body.N + 2, UB: -1}
+	// explicit patterns: the innermost array reads whose index mentions the bound variable
+	// (solvers do not infer patterns that contain arithmetic such as off+k)
+	pats := ""
+	if len(t.Vars) == 1 && t.Forall && !c.BV {
+		for _, p := range selectPatterns(body.S, bvNames[0]) {
+			pats += " :pattern (" + p + ")"
+		}
+	}
+	var r Term
+	if pats != "" {
+		r = Term{S: fmt.Sprintf("(%s (%s) (! %s%s))", q, strings.Join(decl, " "), body.S, pats), Sort: SBool, N: body.N + 2, UB: -1}
+	} else {
+		r = Term{S: fmt.Sprintf("(%s (%s) %s)", q, strings.Join(decl, " "), body.S), Sort: SBool, N: body.N + 2, UB: -1}
+	}
 	return env.boolv(r)
 }
